@@ -202,7 +202,7 @@ Section Refs.
   Qed.
 
   Lemma trav_cat s r sh : trav cat s r = Some sh -> cat_get cat r = Some sh.
-  Proof. unfold trav. destruct (cat_get cat r); [|discriminate]. destruct (_ && _); congruence. Qed.
+  Proof. unfold trav. destruct (cat_get cat r); [|discriminate]. destruct (_ && _ && _); congruence. Qed.
 
   (** registration keeps the invariant *)
   Lemma RC_register_ci c r sh : RC c -> cat_get cat r = Some sh -> RC (register_ci c r sh).
